@@ -1324,6 +1324,22 @@ def run(ctx: Any, prog: Program) -> None:
         ctx.check('C14.X21', both_after or (in_block_on_leaf and in_leaf_on_block), dmx, sets21[0] if sets21 else fk21, 'from_kv1 notices a mix of leaves and blocks only when the '
                   + ('leaf' if in_block_on_leaf else 'block') + ' comes first: in the other order the leaves are inlined as attributes while the blocks go to `subkeys`, and to_kv1 writes the leaves ahead of the blocks - '
                   'the tree comes back reordered', func='Element.from_kv1', text='mixed parents are nested')
+    # ---- X22: the KV2 writer counts every reference to an element ---------------------------------------------------------------------------
+    # export_kv2 decides from the use counts which elements are written once at top level and referred to by id (count > 1) and which are
+    # nested inline.  Only stubs (not exported at all) are left out of the count: a reference that is not counted - an element's reference to
+    # itself, say - leaves a cyclic element with count 1, it is written inline, and the inline writer follows the cycle for ever.
+    ctx.rule('C14.X22', 'export_kv2 counts every reference except those to stub elements', floor=1)
+    ek22 = dmx.func('Element.export_kv2')
+    loops22 = [l for l in ast.walk(ek22) if isinstance(l, ast.For) and isinstance(l.iter, ast.Call) and isinstance(l.iter.func, ast.Attribute) and l.iter.func.attr == 'iter_elem'
+               and any(isinstance(x, ast.Name) and x.id == 'use_count' for x in ast.walk(l))]
+    ctx.shape('C14.X22', len(loops22) == 1, dmx, ek22, 'the loop of export_kv2 that counts the uses of sub-elements was not found once', func='Element.export_kv2', text='use-count loop')
+    for l22 in loops22[:1]:
+        for cont in [c for c in ast.walk(l22) if isinstance(c, ast.Continue)]:
+            g22 = dmx.parents.get(cont)
+            only_stub = isinstance(g22, ast.If) and isinstance(g22.test, ast.Call) and dotted(g22.test.func) == 'isinstance' and len(g22.test.args) == 2 and 'Stub' in U(g22.test.args[1])
+            null_test = isinstance(g22, ast.If) and isinstance(g22.test, ast.Compare) and len(g22.test.ops) == 1 and isinstance(g22.test.ops[0], ast.Is) and dotted(g22.test.comparators[0]) == 'NULL'
+            ctx.check('C14.X22', only_stub or null_test, dmx, g22 if isinstance(g22, ast.If) else cont, f'export_kv2 leaves a reference out of the use count when `{U(g22.test)[:60] if isinstance(g22, ast.If) else "?"}`: '
+                      'an element whose other references are not counted is written inline, and if it refers to itself the inline writer never terminates', func='Element.export_kv2', text='only stubs are left out of the use count')
     ctx.rule('C14.X12', 'KV2 reader: every queued reference is given a stub carrying its id, in array and scalar position', floor=2)
     pk = dmx.func('Element._parse_kv2_element')
     for c in [x for x in ast.walk(pk) if isinstance(x, ast.Call) and isinstance(x.func, ast.Attribute) and x.func.attr == 'append' and isinstance(x.func.value, ast.Name) and x.func.value.id in [a.arg for a in pk.args.args]
@@ -1465,6 +1481,7 @@ def run(ctx: Any, prog: Program) -> None:
 
 
 MUTANTS: List[Dict[str, Any]] = [
+    {'id': 'kv2_self_reference_not_counted', 'file': 'dmx.py', 'find': "                    if isinstance(subelem, StubElement):\n                        continue\n                    if subelem.uuid not in use_count:", 'replace': "                    if isinstance(subelem, StubElement) or subelem is elem:\n                        continue\n                    if subelem.uuid not in use_count:", 'expect': 'C14.X22', 'note': 'round 14'},
     {'id': 'element_name_encoded_lossily', 'file': 'dmx.py', 'find': "                file.write(elem.name.encode(encoding) + b'\\0')", 'replace': "                file.write(elem.name.encode(encoding, 'replace') + b'\\0')", 'expect': 'C14.X20', 'note': 'round 13'},
     {'id': 'kv2_fixup_try_around_loop', 'file': 'dmx.py', 'find': "        for attr, index, uuid, line_num in fixups:\n            try:\n                elem = id_to_elem[uuid]\n            except KeyError:\n                continue  # It'll be a stub element.\n            if index is None:\n                attr._value = elem\n            else:\n                attr._value[index] = elem\n", 'replace': "        try:\n            for attr, index, uuid, line_num in fixups:\n                elem = id_to_elem[uuid]\n                if index is None:\n                    attr._value = elem\n                else:\n                    attr._value[index] = elem\n        except KeyError:\n            pass\n", 'expect': 'C14.X19', 'note': 'round 12'},
     {'id': 'time_decoded_by_reciprocal', 'file': 'dmx.py', 'find': "    return Time(num / 10000.0)", 'replace': "    return Time(num * 1e-4)", 'expect': 'C14.X4', 'note': 'round 12'},
